@@ -1,12 +1,13 @@
 import GarbleVerif.Model.Arith
 import GarbleVerif.Model.SrcSem
+import GarbleVerif.Model.MatchSpec
 /-!
 # L7 — what the compiled circuit computes, at the level of bit lists (core fragment)
 
 `bitExpr` / `bitStmts` / `bitStmt` follow `compile.rs` (`TypedExpr::compile`, `TypedStmt::compile`) on the
 core fragment of the language — Booleans and integers of every width, literals, variables, `!`, unary
-`-`, `+`, `-`, `*`, `/`, `%`, `<<`, `>>`, `<`, `>`, `<=`, `>=`, `==`, `!=`, `&`, `|`, `^` on Booleans, `&&`, `||`, casts between all of
-these types, `if`/`else` (as expression and as statement), blocks, `()`, `let`, `let mut` and assignment
+`-`, `+`, `-`, `*`, `/`, `%`, `<<`, `>>`, `<`, `>`, `<=`, `>=`, `==`, `!=`, `&`, `|`, `^`, `&&`, `||`, casts between all of
+these types, `if`/`else` (as expression and as statement), `match` on a scalar whose arms cover its type, blocks, `()`, `let`, `let mut` and assignment
 to a variable — but instead of emitting gates they compute the value every wire would carry for given
 inputs: operands become big-endian bit lists, operators are the bit-list functions of
 `Model/Arith.lean` (the same functions that C03 ties to `CircuitBuilder`), the panic record is its
@@ -94,6 +95,9 @@ def binBits (op : Src.BinOp) (t : STy) (x y : List Bool) : Option (STy × List B
   | .band, .bool => let r := Arith.binop .bitAnd false false false x y; some (.bool, r.1, r.2)
   | .bor, .bool => let r := Arith.binop .bitOr false false false x y; some (.bool, r.1, r.2)
   | .bxor, .bool => let r := Arith.binop .bitXor false false false x y; some (.bool, r.1, r.2)
+  | .band, .int k => let r := Arith.binop .bitAnd k.signed k.signed k.signed x y; some (.int k, r.1, r.2)
+  | .bor, .int k => let r := Arith.binop .bitOr k.signed k.signed k.signed x y; some (.int k, r.1, r.2)
+  | .bxor, .int k => let r := Arith.binop .bitXor k.signed k.signed k.signed x y; some (.int k, r.1, r.2)
   | _, _ => none
 
 /-- the type of a value of the fragment: a scalar, or `()` (the value of an assignment, of a block that
@@ -158,6 +162,16 @@ def lastIsCatchAll : Arms → Bool
   | .nil => false
   | .cons (.ident _) _ .nil => true
   | .cons _ _ rest => lastIsCatchAll rest
+
+/-- the patterns of the arms, in order -/
+def armPats : Arms → List Pat
+  | .nil => []
+  | .cons p _ rest => p :: armPats rest
+
+/-- the arms cover every value of the scrutinee's type: the last one binds or ignores the value, or the reference
+procedure of C08 (`Src.uncovered`, proved exact) finds no uncovered value. The type checker accepts nothing else. -/
+def matchCovers (ts : STy) (arms : Arms) : Bool :=
+  lastIsCatchAll arms || (Src.uncovered ts.toTy (armPats arms)).isNone
 
 /-- the variables an arm is compiled with: the state after the scrutinee plus the pattern's binding -/
 def armEnv (bind : Option String) (ts : STy) (sb : List Bool) (benv1 : BEnv) : BEnv :=
@@ -293,12 +307,12 @@ def bitExpr (benv : BEnv) : Expr → Option (VTy × List Bool × P × BEnv)
     | none => none
   /- `()` -/
   | .tuple .nil => some (.unit, [], none, benv)
-  /- `match` on a scalar with a catch-all last arm: every arm is compiled from the state after the scrutinee; value,
+  /- `match` on a scalar whose arms cover the type: every arm is compiled from the state after the scrutinee; value,
   panic and variables of the first arm whose pattern matches are selected -/
   | .match_ scrut arms =>
     match bitExpr benv scrut with
     | some (.s ts, sb, ps, env1) =>
-      if lastIsCatchAll arms then
+      if matchCovers ts arms then
         match bitArms env1 ts sb arms (false, none, none, env1) with
         | some (_, some (t, bs), pa, envF) => some (t, bs, seqP ps pa, envF)
         | _ => none
